@@ -353,12 +353,22 @@ pub(crate) trait CKKSSubDefault<BE: Backend> {
             return Ok(());
         }
 
-        let _offset = crate::ensure_plaintext_alignment(
+        let offset = crate::ensure_plaintext_alignment(
             "ckks_sub_pt_const_znx_into",
             dst.log_budget(),
             cst_znx.log_delta(),
             cst_znx.effective_k(),
         )?;
+        // The digits are added limb by limb as they are: a constant encoded at another precision would land at the wrong bit position.
+        anyhow::ensure!(
+            offset == 0,
+            crate::CKKSCompositionError::PlaintextAlignmentImpossible {
+                op: "ckks_sub_pt_const_znx_into",
+                ct_log_budget: dst.log_budget(),
+                pt_log_delta: cst_znx.log_delta(),
+                pt_max_k: cst_znx.effective_k(),
+            }
+        );
         let n = dst.n().as_usize();
         if let Some(coeff) = cst_znx.re() {
             for (limb, digit) in coeff.iter().enumerate() {
